@@ -431,12 +431,23 @@ func execC14(c *Ctx) {
 	}
 	variants := 0
 	accepted := 0
+	// strict: the variant is not sealed under an installed key with the receiver's label (plaintext,
+	// foreign / removed key, other label): "treated like the original" is then a violation too
+	strict := false
 	check := func(desc string, sig string, v []byte) bool {
 		variants++
 		rc := inject(v)
 		if rc.Reply == "PLAINTEXT-REPLY" {
 			c.Violate("plaintext-reply", "", "rcv", "%s of genuine %s: receiver answered in clear", desc, g.Kind)
 			return false
+		}
+		if strict {
+			if !rc.none() || (rc.Reply != "" && rc.Reply != "none" && rc.Reply != "error-reply") {
+				l.freshR()
+				c.Violate("unauthenticated-traffic-acted-on", sig, "rcv", "%s of genuine %s (cfg enc=%d proto=%d label=%q): the receiver acted on it: %s", desc, g.Kind, p.Cfg.Encrypt, p.Cfg.ProtocolVersion, p.Cfg.Label, rc.key())
+				return false
+			}
+			return true
 		}
 		if rc.key() == orig.key() {
 			if !rc.none() {
@@ -513,6 +524,7 @@ func execC14(c *Ctx) {
 			}
 			return append(makeLabelHeader(lbl, nil), b...)
 		}
+		strict = true
 		if !check("plaintext original", "", withLabel(p.Cfg.Label, inner)) {
 			return
 		}
@@ -578,6 +590,21 @@ func execC14(c *Ctx) {
 		if !check("sealed under a key that was installed and removed again", "", withLabel(p.Cfg.Label, seal(removedKey, p.Cfg.Label))) {
 			return
 		}
+		// the same when the receiver's ring was *constructed* from a key list that names the later
+		// removed key more than once (a merged or hand-edited key file)
+		l.freshR()
+		if kr, err := NewKeyring([][]byte{removedKey, simKey(16, 0x72), removedKey}, l.R.conf.Keyring.GetPrimaryKey()); err == nil {
+			rk := l.R.conf.Keyring
+			rk.l.Lock()
+			rk.keys = kr.GetKeys()
+			rk.l.Unlock()
+			_ = rk.RemoveKey(removedKey)
+			c.Reach("removed_key_listed_twice_at_construction")
+			if !check("sealed under a key that was listed twice when the ring was constructed and then removed", "", withLabel(p.Cfg.Label, seal(removedKey, p.Cfg.Label))) {
+				return
+			}
+		}
+		l.freshR() // back to the scenario's own ring
 		// sanity (positive control): sealed under a secondary installed key must be accepted as the original
 		if nExtra > 0 {
 			rc := inject(withLabel(p.Cfg.Label, seal(simKey(16, 0x30), p.Cfg.Label)))
